@@ -25,7 +25,7 @@ func init() {
 	engines["C06"] = c06Engine{}
 	evidenceInfo["C06"] = evInfo{
 		rule: "one evaluation = one project observed under R=3..5 environments (rep 0 canonical; others: map order permuted at all / a random subset of the 21 instrumented map-range sites, reversed order, " +
-			"0-2 unrelated prior builds in the process, one repetition in a fresh OS process, pool policy, ambient seed). Projects: generator (valid), generator + 2..4 independent defect blocks of 23 kinds, " +
+			"0-2 unrelated prior builds in the process, one repetition in a fresh OS process, pool policy, ambient seed). Projects: generator (valid), generator + 2..4 independent defect blocks of 25 kinds, " +
 			"corpus files accepted and rejected, valid projects with 1-3 stored-byte faults (flip/torn/zeroed sector/misdirected sector) applied before the build. " +
 			"non-trivial = at least one repetition permuted a map site that saw >= 2 keys, or ran in a fresh process; distinct = distinct (project hash, set of permuted sites with >= 2 keys, fresh?) triples",
 		components: stdComponents,
@@ -59,8 +59,62 @@ func damageOneBlock(p *Project, r *Rand) bool {
 		return false
 	}
 	l := locs[r.Intn(len(locs))]
+	if r.Chance(3, 4) {
+		// mostly user types: other blocks refer to them by name, so a broken one is looked at from
+		// several places of the builder
+		var tl []loc
+		for _, x := range locs {
+			if strings.HasPrefix(string(p.Files[x.fi].Data[x.start:x.end]), "TYPE ") {
+				tl = append(tl, x)
+			}
+		}
+		if len(tl) > 0 {
+			l = tl[r.Intn(len(tl))]
+		}
+	}
 	f := &p.Files[l.fi]
 	block := string(f.Data[l.start:l.end])
+	if strings.HasPrefix(block, "TYPE ") && r.Chance(3, 4) {
+		// damage INSIDE the schema that keeps braces balanced: the document still scans, the type's
+		// schema fails when it is loaded or checked - i.e. when another type looks at it
+		ll := strings.SplitAfter(block, "\n")
+		var cand []int
+		for i, ln := range ll {
+			if i > 0 && strings.Contains(ln, "\":") {
+				cand = append(cand, i)
+			}
+		}
+		if len(cand) > 0 {
+			i := cand[r.Intn(len(cand))]
+			ln := ll[i]
+			switch r.Intn(4) {
+			case 0: // unknown rule added
+				ln = strings.TrimRight(ln, "\r\n")
+				if strings.Contains(ln, "//") {
+					ln = strings.Replace(ln, "// {", "// {nosuchrule: 1, ", 1)
+					if !strings.Contains(ln, "nosuchrule") {
+						ln += " {nosuchrule: 1}"
+					}
+				} else {
+					ln += " // {nosuchrule: 1}"
+				}
+				ln += "\n"
+			case 1: // a value becomes garbage
+				if j := strings.Index(ln, "\": "); j >= 0 {
+					ln = ln[:j+3] + "#" + ln[j+3:]
+				}
+			case 2: // the comma between two properties is lost
+				ln = strings.Replace(ln, ",", " ", 1)
+			default: // a key loses its closing quote
+				ln = strings.Replace(ln, "\":", ":", 1)
+			}
+			ll[i] = ln
+			block = strings.Join(ll, "")
+			f.Data = []byte(string(f.Data[:l.start]) + block + string(f.Data[l.end:]))
+			p.Features = append(p.Features, "prefault:damaged-type-schema")
+			return true
+		}
+	}
 	switch r.Intn(3) {
 	case 0: // the last non-empty line is lost
 		t := strings.TrimRight(block, "\r\n \t")
@@ -87,7 +141,7 @@ func damageOneBlock(p *Project, r *Rand) bool {
 func corruptBeforeBuild(p *Project, r *Rand) {
 	p.Kind = "pre-build-byte-faults"
 	p.Valid = false
-	if r.Chance(1, 2) && damageOneBlock(p, r) {
+	if r.Chance(2, 3) && damageOneBlock(p, r) {
 		return
 	}
 	for i := 0; i < r.Range(1, 3); i++ {
